@@ -12,6 +12,7 @@ VARIABLES l, bad
 GeomOk(e) == /\ e.err = "" /\ e.doc = GeomDoc(e.g) /\ WellFormedGeom(e.doc)
              /\ GEq(e.dec, NormG(e.g)) /\ GEq(e.decb, NormG(e.g)) /\ e.same = 1
              /\ GEq(e.re, NormG(e.g)) /\ GEq(e.reb, NormG(e.g)) /\ e.routes = 1 /\ e.stable = 1
+             /\ e.hkept = 1   \* the typed helper receivers, reused from document to document, return this value and keep their earlier results intact
 FeatOk(e) == /\ e.err = "" /\ e.doc = FeatureDoc(e.f) /\ WellFormedGeom(e.doc.v.geometry)
              /\ FEq(e.dec, NormF(e.f)) /\ FEq(e.decb, NormF(e.f)) /\ e.same = 1
              /\ FEq(e.re, NormF(e.f)) /\ FEq(e.reb, NormF(e.f)) /\ e.routes = 1 /\ e.stable = 1
